@@ -243,12 +243,12 @@ def run(ctx, rec):
         done_boxes.append(f"{kind} W={Wb}")
     rec.extra["exhaustive_boxes"] = done_boxes
     # sampled depth-1 for the other parents (quick), depth 2..3, and wide buses
-    n_s1 = 2500 if ctx.quick else 6000
+    n_s1 = 2500 if ctx.quick else 16000
     for _ in range(n_s1):
         kind = rng.choice(KINDS[1:])
         w = rng.randint(1, W + (0 if ctx.quick else 2))
         cases.append((kind, w, [rand_index(rng, W, w)]))
-    n_deep = 2500 if ctx.quick else 20000
+    n_deep = 2500 if ctx.quick else 64000
     for _ in range(n_deep):
         kind = rng.choice(KINDS)
         w = rng.randint(2, 6 if ctx.quick else 8)
@@ -260,7 +260,7 @@ def run(ctx, rec):
             sel, _ = py_select(n, [idx])
             n = len(sel) if sel else 1
         cases.append((kind, w, chain))
-    for _ in range(300 if ctx.quick else 3000):
+    for _ in range(300 if ctx.quick else 9600):
         w = rng.randint(9, 32)
         cases.append((rng.choice(KINDS), w, [rand_index(rng, w, w)]))
     if ctx.nshards > 1:
